@@ -174,6 +174,10 @@ fn classify_abort(panics: &[PanicRec]) -> (End, Option<String>) {
     (End::Deadlock(String::new()), Some(last))
 }
 
+/// differences between the environment the real start-up code produced and the effective
+/// configuration of the scenario (Boot.exact): reported as a note of the run
+pub static BOOT_DIFF: std::sync::Mutex<Vec<String>> = std::sync::Mutex::new(Vec::new());
+
 fn prepare_child(sc: &Scenario, root: &Path, wfd: i32) {
     unsafe {
         let rl = libc::rlimit { rlim_cur: CHILD_CPU_CAP_S, rlim_max: CHILD_CPU_CAP_S + 2 };
@@ -240,8 +244,30 @@ fn prepare_child(sc: &Scenario, root: &Path, wfd: i32) {
     ] {
         std::env::set_var(k, v);
     }
-    for (k, v) in &sc.env {
-        std::env::set_var(k, v);
+    match &sc.boot {
+        None => {
+            for (k, v) in &sc.env {
+                std::env::set_var(k, v);
+            }
+        }
+        Some(boot) => {
+            // the real start-up sequence of the shipped binary (entry_point::bootstrap) with the
+            // command line of the scenario instead of the simulator's own
+            for (k, v) in &boot.env {
+                std::env::set_var(k, v);
+            }
+            rws::entry_point::config_file::override_environment_variables_from_config(None);
+            let params = rws::entry_point::command_line_args::CommandLineArgument::get_command_line_arg_list();
+            rws::entry_point::command_line_args::CommandLineArgument::_parse(boot.cli.clone(), params);
+            if boot.exact {
+                for (k, v) in &sc.env {
+                    let got = std::env::var(k).unwrap_or_default();
+                    if &got != v {
+                        BOOT_DIFF.lock().unwrap().push(format!("{}: the start-up code left '{}', the scenario's effective value is '{}'", k, got, v));
+                    }
+                }
+            }
+        }
     }
     std::panic::set_hook(Box::new(|info| {
         let (file, line) = info.location().map(|l| (l.file().to_string(), l.line())).unwrap_or(("?".into(), 0));
